@@ -324,6 +324,24 @@ func c09Check(c c09Case) (fs []rep.Finding) {
 			return n, true
 		})
 		call("Txs.ReadFrom", func() (int64, bool) { var t bt.Txs; n, _ := t.ReadFrom(bytes.NewReader(data)); return n, true })
+		// list targets that are not fresh: spare capacity, nil slots, and a list that already
+		// holds decoded transactions (a shorter one, so that slots beyond its length are nil)
+		for _, mode := range []string{"spare-capacity", "nil-slots", "used-list"} {
+			mode := mode
+			call("Txs.ReadFrom/into-"+mode, func() (int64, bool) {
+				var t bt.Txs
+				switch mode {
+				case "spare-capacity":
+					t = make(bt.Txs, 0, 8)
+				case "nil-slots":
+					t = make(bt.Txs, 8)
+				case "used-list":
+					_, _ = t.ReadFrom(bytes.NewReader(c09ThreeTxList))
+				}
+				n, _ := t.ReadFrom(bytes.NewReader(data))
+				return n, true
+			})
+		}
 		// sources that offer nothing but Read (a connection, a file, an io.LimitReader)
 		for _, mode := range []string{"plain", "1byte"} {
 			mode := mode
@@ -380,6 +398,16 @@ func c09Check(c c09Case) (fs []rep.Finding) {
 	return
 }
 
+// c09ThreeTxList is a counted list of three small transactions (append leaves a fourth, nil slot).
+var c09ThreeTxList = func() []byte {
+	one := (&txRecipe{V: 1, NIn: 1, NOut: 1, SLen: 2, PrevLen: 3, Sats: 5, OLen: 2, Seq: 1}).build().Bytes(false)
+	b := []byte{3}
+	for i := 0; i < 3; i++ {
+		b = append(b, one...)
+	}
+	return b
+}()
+
 // c09JSONDocs enumerates JSON documents: product of per-field variants.
 func c09JSONDocs(thorough bool) (docs []string) {
 	validTx := hex.EncodeToString((&txRecipe{V: 1, NIn: 1, NOut: 1, SLen: 2, PrevLen: 3, Sats: 5, OLen: 2, Seq: 1}).build().Bytes(false))
@@ -390,7 +418,10 @@ func c09JSONDocs(thorough bool) (docs []string) {
 	txidV := []string{"", `"txid":"` + hex.EncodeToString(txid32(3)) + `"`, `"txid":"abcd"`, `"txid":"zz"`, `"txid":7`, `"txid":null`}
 	scriptSigV := []string{"", `"scriptSig":null`, `"scriptSig":{}`, `"scriptSig":{"hex":"51"}`, `"scriptSig":{"hex":"5"}`, `"scriptSig":{"hex":7}`, `"scriptSig":"51"`, `"unlockingScript":"51"`, `"unlockingScript":"5x"`}
 	spkV := []string{"", `"scriptPubKey":null`, `"scriptPubKey":{}`, `"scriptPubKey":{"hex":"76a9"}`, `"scriptPubKey":{"hex":"7"}`, `"scriptPubKey":"76a9"`, `"scriptPubKey":{"hex":[]}`, `"lockingScript":"51"`, `"lockingScript":"5"`, `"lockingScript":5`}
-	valV := []string{"", `"value":0.00000029`, `"value":-1`, `"value":1e30`, `"value":"1"`, `"value":null`, `"satoshis":5`, `"satoshis":-5`, `"satoshis":1e30`, `"amount":0.5`, `"amount":"x"`}
+	valV := []string{"", `"value":0.00000029`, `"value":-1`, `"value":1e30`, `"value":"1"`, `"value":null`, `"satoshis":5`, `"satoshis":-5`, `"satoshis":1e30`, `"amount":0.5`, `"amount":"x"`,
+		// number texts a hand-written amount parser meets: more than eight decimals, exponents, huge, negative zero
+		`"value":0.123456789`, `"value":1.0000000000000000`, `"value":1e-9`, `"value":1E400`, `"value":-0.0`, `"value":0.1e-7`, `"value":12345678901234567890123`,
+		`"amount":0.123456789`, `"amount":1e400`, `"amount":1e-9`, `"satoshis":18446744073709551616`, `"satoshis":0.5`}
 	join := func(parts ...string) string {
 		s := ""
 		for _, p := range parts {
@@ -472,7 +503,7 @@ func c09JSONDocs(thorough bool) (docs []string) {
 
 func init() {
 	p := register(&Prop{ID: "C09", Level: "fault_enumeration",
-		Rule: "exhaustive fault-style enumeration in single-threaded child processes (address-space limit, per-case progress marker, death/hang attribution): for each of ~22 (quick) / 26 (thorough) reference serialisations (standard and extended): every truncation length, the whole serialisation followed by surplus bytes, every single-bit flip, every byte replaced by every other value, every length/count field replaced by each of {0xfc,253,65535,65536,2^24,2^31,2^32-1,2^32,2^40,2^63,2^64-1} with the tail kept/cut/one byte, tx-list counts with those claims, every short wide-varint prefix; all strings of length<=5/7 over {00,01,02,EF,FD,FE,FF} bare, after a version and after the extended marker; a product of JSON documents (absent/null/valid/wrong-type/bad-hex per field incl. vin[i].scriptSig, vout[i].scriptPubKey, null elements, lists, fee quotes); each through every binary (13, incl. readers that expose only Read) or JSON (10) decoding entry point. Oracle per call: no panic, no process death, a value or an error (never neither), bytes-consumed <= bytes supplied, TotalAlloc delta <= 64*len+256KiB. distinct_nontrivial = distinct (family, decoder-outcome vector) classes",
+		Rule: "exhaustive fault-style enumeration in single-threaded child processes (address-space limit, per-case progress marker, death/hang attribution): for each of ~22 (quick) / 26 (thorough) reference serialisations (standard and extended): every truncation length, the whole serialisation followed by surplus bytes, every single-bit flip, every byte replaced by every other value, every length/count field replaced by each of {0xfc,253,65535,65536,2^24,2^31,2^32-1,2^32,2^40,2^63,2^64-1} with the tail kept/cut/one byte, tx-list counts with those claims, every short wide-varint prefix; all strings of length<=5/7 over {00,01,02,EF,FD,FE,FF} bare, after a version and after the extended marker; a product of JSON documents (absent/null/valid/wrong-type/bad-hex per field incl. vin[i].scriptSig, vout[i].scriptPubKey, null elements, lists, fee quotes); amount texts with more than eight decimals, exponents and overflow; each through every binary (16, incl. readers that expose only Read and list targets with spare capacity, nil slots or earlier content) or JSON (10) decoding entry point. Oracle per call: no panic, no process death, a value or an error (never neither), bytes-consumed <= bytes supplied, TotalAlloc delta <= 64*len+256KiB. distinct_nontrivial = distinct (family, decoder-outcome vector) classes",
 	})
 	check := func(th bool, i uint64) []rep.Finding { return c09Check(c09Tab(th).at(i)) }
 	worker.Register(&worker.Space{
